@@ -54,7 +54,9 @@ Fixpoint parse_loop (first : bool) (x : N) (s : list N) : Res N :=
     else Err E_CHARACTER
   end.
 
-Definition parse (s : list N) : Res N := parse_loop true 0 s.
+(* fixed code (known_findings.txt): if s.is_empty() { return Err(Error::Range) } *)
+Definition parse (s : list N) : Res N :=
+  match s with [] => Err E_RANGE | _ => parse_loop true 0 s end.
 
 (* ---------------------------------------------------------------- commitment / reserved *)
 (* u128::to_le_bytes *)
